@@ -24,6 +24,7 @@ type c06shape struct {
 	name   string
 	codes  int // 3 = T/F/E expressible, 2 = T/F only
 	isMap  bool
+	mixed  bool // list or map depending on the pattern: nothing is unrolled, the reference decides
 	mk     func(pat []int) *Node
 	body   func(v string) *Match // value body giving the element's outcome
 	nested bool
@@ -101,6 +102,16 @@ func c06Shapes(thorough bool) []c06shape {
 		}},
 		c06shape{name: "[]interface{} (identity hook, unknown value 2)", codes: 3, body: root, hook: HookIdentity, unknown: two, mk: func(p []int) *Node { return NSlice(TAny, elems(p, one, two, NNilAny())...) }},
 	)
+	// ONE evaluator meeting a list and a map in turn (the meaning of the one-name binding depends on the collection it meets)
+	for parity := 0; parity < 2; parity++ {
+		parity := parity
+		shapes = append(shapes, c06shape{name: fmt.Sprintf("[]interface{} / map[string]interface{} alternating under one evaluator (map for lengths of parity %d)", parity), codes: 3, mixed: true, body: root, mk: func(p []int) *Node {
+			if len(p)%2 == parity {
+				return mapOf(TAny, elems(p, one, two, NNilAny()))
+			}
+			return NSlice(TAny, elems(p, one, two, NNilAny())...)
+		}})
+	}
 	// a hook that transforms the scalar elements themselves: the value placeholder must see what a lookup of S.i sees
 	shapes = append(shapes,
 		c06shape{name: "[]int (scalar-swapping hook)", codes: 2, body: root, hook: HookSwap, mk: func(p []int) *Node { return NSlice(TInt, elems(p, one, two, nil)...) }},
@@ -223,7 +234,7 @@ func c06Exprs(sh c06shape, thorough bool) []c06expr {
 				for _, t := range tbs {
 					q := &Quant{All: all, Sel: S, Mode: mode, Idx: I, Val: V, Body: t.body}
 					bindsValue := mode == BindValue || mode == BindBoth || (mode == BindDefault && !sh.isMap)
-					un := bindsValue && !sh.isMap && !(mode == BindBoth && (I == V || usesHead(t.body, I)))
+					un := bindsValue && !sh.isMap && !sh.mixed && !(mode == BindBoth && (I == V || usesHead(t.body, I)))
 					out = append(out, c06expr{q: q, unroll: un, valName: V, template: t.name})
 				}
 			}
@@ -231,7 +242,7 @@ func c06Exprs(sh c06shape, thorough bool) []c06expr {
 	}
 	// JSON-pointer spelled collection selector and struct-rooted variants are covered by C07; one instance here
 	if !sh.nested {
-		out = append(out, c06expr{q: &Quant{All: false, Sel: S, JP: true, Mode: BindValue, Val: "x", Body: sh.body("x")}, unroll: !sh.isMap, valName: "x", template: "collection-json-pointer"})
+		out = append(out, c06expr{q: &Quant{All: false, Sel: S, JP: true, Mode: BindValue, Val: "x", Body: sh.body("x")}, unroll: !sh.isMap && !sh.mixed, valName: "x", template: "collection-json-pointer"})
 	}
 	return out
 }
@@ -373,7 +384,7 @@ func runC06(c *eng.Ctx) {
 				}))
 				self = ev
 			} else {
-				ev, err = bexpr.CreateEvaluator(src, optsFor(cfg)...)
+				ev, err = createWith(src, cfg)
 			}
 			if err != nil {
 				c.Violate(eng.Violation{Kind: "harness-expression-rejected", Key: "create: " + src, Detail: err.Error()})
@@ -411,7 +422,7 @@ func runC06(c *eng.Ctx) {
 						u, ok := unr[len(pat)]
 						if !ok {
 							u.src = Render(unrolled(x.q, x.valName, len(pat)))
-							u.ev, err = bexpr.CreateEvaluator(u.src, optsFor(cfg)...)
+							u.ev, err = createWith(u.src, cfg)
 							if err != nil {
 								c.Violate(eng.Violation{Kind: "harness-expression-rejected", Key: "create: " + u.src, Detail: err.Error()})
 								u.ev = nil
